@@ -324,7 +324,7 @@ func (s *storageRunner) evalPump() {
 					req.Reply <- &protocol.ConsumerGroupStatus{Cluster: req.Cluster, Group: req.Group, Status: protocol.StatusConstant(-99)}
 				}
 			}()
-			s.ev.GetConsumerStatus(req)
+			s.ev.Request(req)
 		}(req)
 	}
 }
